@@ -288,8 +288,12 @@ Lemma step_inv : forall st a, Inv st -> Inv (step denote st a).
 Proof.
   intros st [i|k] I; simpl.
   - destruct (Nat.ltb i (nthreads st)) eqn:E; [|exact I]. apply Nat.ltb_lt in E. now apply thread_step_inv.
-  - destruct I as [A B C D E F]. constructor; simpl; auto.
+  - destruct I as [A B C D E F]. constructor; simpl.
+    + exact A.
     + intros k' m H. apply filter_In in H. apply B. tauto.
+    + exact C.
+    + exact D.
+    + exact E.
     + intros i Hi. destruct (F i Hi) as [X [Y Z]]. split; [exact X|]. split; [|exact Z].
       unfold sid_ok in *. simpl. exact Y.
 Qed.
